@@ -32,6 +32,7 @@ type genCfg struct {
 	maxValue   bool    // ... including a value of 2^28-1 bytes (thorough tier)
 	partial    float64 // probability of a case shaped for partial (same-file) compactions
 	longHist   float64 // probability of a long uncompacted history (footer larger than a page)
+	getErrW    int     // reads that fail because the merge operator refuses
 	idle       float64 // probability that the idle merger is enabled
 	tinyDirty  float64
 	finalClose bool
@@ -92,6 +93,8 @@ func propCfg(prop string) genCfg {
 		base.backings = []string{"mem", "store", "store", "store"}
 		base.snapW = 25
 		base.kids = 0.3
+		base.merges = 0.4
+		base.getErrW = 5
 		base.merges = 0.2
 		base.concerns = []int{0, 1, 2, 2}
 	case "C04":
@@ -133,6 +136,7 @@ func propCfg(prop string) genCfg {
 		base.merges = 0.5
 		base.weirdKeys = 0.4
 		base.verifyW = 20
+		base.getErrW = 5
 	case "C11":
 		base.backings = []string{"mem", "store", "store", "store"}
 		base.flags = []string{"verifyEach", "storeEach", "finalVerify", "finalReopen"}
@@ -163,6 +167,8 @@ func propCfg(prop string) genCfg {
 		base.kids = 0.3
 		base.faults = "io-light"
 		base.partial = 0.15
+		base.merges = 0.3
+		base.getErrW = 4
 		base.concerns = []int{0, 1, 2, 2}
 		base.reopen = 2
 		base.idle = 0.4
@@ -541,6 +547,9 @@ func genSingle(c *Case, r *simrt.Rand, cfg genCfg) {
 		ws = append(ws, w{"clock", cfg.clockW})
 	}
 	ws = append(ws, w{"snap", cfg.snapW}, w{"iter", cfg.iterW})
+	if g.merges && c.Opts.Backing != "mapll" {
+		ws = append(ws, w{"getErr", cfg.getErrW})
+	}
 	tot := 0
 	for _, x := range ws {
 		tot += x.w
@@ -611,6 +620,10 @@ func genSingle(c *Case, r *simrt.Rand, cfg genCfg) {
 			default:
 				c.Prog = append(c.Prog, Op{Kind: "snapClose", N: r.Intn(nsnap)})
 			}
+		case "getErr":
+			g.seq++
+			k := pick(r, g.pool)
+			c.Prog = append(c.Prog, Op{Kind: "getErr", B: &BatchSpec{Ops: []KV{{Op: "merge", K: k, V: []byte(fmt.Sprintf("g%d", g.seq))}}}})
 		case "iter":
 			c.Prog = append(c.Prog, genIterProg(r, g.pool))
 		case "hist":
